@@ -355,6 +355,13 @@ pub fn special_ext_tasks() -> Vec<ExtTask> {
         mk("{p} :- q. q :- p.", false, "{p}. q :- p.", "output: p/0. output: q/0.", ""),
         mk("{out(X)} :- aux(X). aux(X) :- out(X), in(X).", false, "{out(X)} :- in(X), out(X).", "input: in/1. output: out/1.", ""),
         mk("spec: p <-> q.", true, "{p} :- q. q :- p.", "output: p/0. output: q/0.", ""),
+        // a placeholder compared directly (=, !=) with a numeral, a symbol or another placeholder
+        mk("p :- n = 0.", false, "p :- n = 0, n > 0.", "input: n -> integer. output: p/0.", ""),
+        mk("p :- n != 0.", false, "p :- n > 0.", "input: n -> integer. output: p/0.", ""),
+        mk("out(X) :- in(X), n = 1.", false, "out(X) :- in(X), n = 1, n != 2.", "input: in/1. output: out/1. input: n -> integer.", ""),
+        mk("out(X) :- in(X), n != a.", false, "out(X) :- in(X).", "input: in/1. output: out/1. input: n.", ""),
+        mk("out(X) :- in(X), n = m.", false, "out(X) :- in(X), m = n.", "input: in/1. output: out/1. input: n -> integer. input: m -> integer.", ""),
+        mk("spec: p <-> n$i = 0.", true, "p :- n = 0.", "input: n -> integer. output: p/0.", ""),
         // one symbol at several arities with different visibility (private/public/input), clashing private copies on both sides
         mk("q(X) :- in(X). q(X,X) :- q(X).", false, "q(X) :- in(X). q(X,X) :- q(X).", "input: in/1. output: q/2.", ""),
         mk("q(X) :- in(X), X > 0. q(X,X) :- q(X).", false, "q(X) :- in(X). q(X,X) :- q(X), X > 0.", "input: in/1. output: q/2.", ""),
